@@ -268,7 +268,7 @@ def one_build(rec, case, root, pno):
         dst = os.path.join(root, "top.suit")
         drive.write_desc(src, desc, fmt)
         if route == "sub":
-            rc, err = drive.cli_sub(["create", "--input-file", src, "--output-file", dst], root)
+            rc, err = drive.cli_sub(["create", "--input-file", src, "--output-file", dst], root, ascii_locale=False)
             out = drive.Outcome(rc == 0, open(dst, "rb").read() if rc == 0 else None,
                                 None if rc == 0 else RuntimeError(err[-300:]), route)
         else:
